@@ -274,6 +274,77 @@ def extra_c10_perm(prop, tier, seed):
     return res
 
 
+def crash_search(tier):
+    """Runs replay `u5c` over its case list in subprocesses (4 GiB address-space limit); a case that kills
+    the process (stack overflow, allocation failure) or panics is a failing instance.  Returns
+    (n_cases, {id: how})."""
+    import resource
+    import subprocess
+    from . import check
+    exe = check.build_replay()
+    mode = [] if tier == 'thorough' else ['quick']
+
+    def lim():
+        resource.setrlimit(resource.RLIMIT_AS, (4 << 30, 4 << 30))
+    n = json.loads(subprocess.run([exe, 'u5c', 'list'] + mode, capture_output=True, text=True).stdout)['cases']
+    failing = {}
+    frm = 0
+    while frm < n:
+        r = subprocess.run([exe, 'u5c', 'run', str(frm)] + mode, capture_output=True, text=True, preexec_fn=lim, timeout=3000)
+        last = None
+        for ln in r.stdout.splitlines():
+            if ln.startswith('@') and ln != '@done':
+                last = int(ln[1:])
+            elif ln.startswith('!'):
+                j = json.loads(json.loads(ln.split(' ', 1)[1]))
+                failing['%s##%s##%s' % (j['schema'], j['json'], j['cbor'])] = 'panic: ' + j['panic'][:80]
+        if '@done' in r.stdout:
+            break
+        if last is None:
+            raise engine.Undecided('replay-failed', 'crash search made no progress: ' + r.stderr[-300:])
+        c = json.loads(subprocess.run([exe, 'u5c', 'show', str(last)] + mode, capture_output=True, text=True).stdout)
+        how = (r.stderr.strip().splitlines() or ['killed'])[-1][:80]
+        failing['%s##%s##%s' % (c['schema'], c['json'], c['cbor'])] = 'process died (rc=%d): %s' % (r.returncode, how)
+        frm = last + 1
+    return n, failing
+
+
+def extra_c05_crash(prop, tier, seed):
+    """Bounded stand-in (labelled, never counted): the public entry points (parse, checked parse, format, JSON
+    and CBOR validation) are run on 616 two-rule schemas (aliases, cycles, every control operator, huge
+    literals, prelude types) x small documents; a panic or a dead process is a failing instance.  Instances
+    that fail on the unchanged tree are recorded in known_instances_C05.json (known findings F9, F19); any
+    other failing instance is a new violation."""
+    n, failing = crash_search(tier)
+    known = json.load(open(os.path.join(engine.VERIF, 'known_instances_C05.json')))
+    new = sorted(k for k in failing if k not in known)
+    res = {'violations': [], 'bounded': [{'check': 'entry points return normally (no panic, no abort) on small schemas/documents',
+                                          'bound': '%d cases (%s tier)' % (n, tier), 'failing_instances': len(failing),
+                                          'recorded_as_known': len(failing) - len(new), 'new': len(new)}]}
+
+    def wit(k):
+        sc, js, cb = k.split('##')
+        return {'schema': sc, 'json': js, 'cbor': cb}
+    for fid, label, pred in (('F9', 'entry-points:return-normally:recorded-cyclic-alias-instances', lambda h: 'died' in h),
+                             ('F19', 'entry-points:return-normally:recorded-uriparse-panic-instances', lambda h: h.startswith('panic'))):
+        ks = [k for k in failing if k in known and pred(failing[k])]
+        if ks:
+            w = wit(sorted(ks)[0])
+            res['violations'].append({
+                'unit': 'U5c', 'label': label, 'fn': 'validate_json_from_str / validate_cbor_from_slice',
+                'message': '%d recorded instances still fail (%s)' % (len(ks), failing[sorted(ks)[0]]), 'clause': [], 'engine': 'replay',
+                'verifier_output': json.dumps(sorted(ks)[:10]),
+                'fixed_witness': {'found': True, 'witness': w, 'real': failing[sorted(ks)[0]], 'replay_args': ['u5c', 'replay', json.dumps(w)]}})
+    if new:
+        w = wit(new[0])
+        res['violations'].append({
+            'unit': 'U5c', 'label': 'entry-points:return-normally', 'fn': 'public entry points',
+            'message': '%d instances that are NOT recorded panic or kill the process (first: %s)' % (len(new), failing[new[0]]),
+            'clause': [], 'engine': 'replay', 'verifier_output': json.dumps(new[:20]),
+            'fixed_witness': {'found': True, 'witness': w, 'real': failing[new[0]], 'replay_args': ['u5c', 'replay', json.dumps(w)]}})
+    return res
+
+
 def witness_u2(v, tier):
     out, err = _replay(['u2', 'find'])
     if out and out.get('found'):
@@ -575,9 +646,10 @@ PROPS = {
     },
     'C05': {
         'vx': ['U1', 'U3'],
+        'extra': [extra_c05_crash],
         'witness': witness_c05,
         'technique': 'Verus: allocation-size obligations injected at every allocation site found by token scan, decreases clauses, overflow / index / unwrap / library-precondition obligations on every function under contract',
-        'level_text': 'Partial: for the functions under contract - the seven CBOR decoder functions and the three parse-error range functions - Verus proves (a) every allocation whose size is a run-time value requests at most a constant (the "length in a CBOR head is never trusted for allocation" clause; sites re-discovered on every run), (b) termination of every loop and of the mutual recursion, (c) absence of arithmetic overflow, out-of-bounds indexing, failing unwrap and violated library preconditions (e.g. ciborium push() with a header already buffered, read_exact with a buffered header - both panic). Found and fixed: allocation of 2 TiB from 9b 00 00 00 10 00 00 00 00 (F3). NOT decided: polynomial time, stack depth (recursion on nesting), the pest parser, the validators, Display, alias-cycle recursion in validator/mod.rs and control.rs.',
+        'level_text': 'Partial: for the functions under contract - the seven CBOR decoder functions and the three parse-error range functions - Verus proves (a) every allocation whose size is a run-time value requests at most a constant (the "length in a CBOR head is never trusted for allocation" clause; sites re-discovered on every run), (b) termination of every loop and of the mutual recursion, (c) absence of arithmetic overflow, out-of-bounds indexing, failing unwrap and violated library preconditions (e.g. ciborium push() with a header already buffered, read_exact with a buffered header - both panic). Found and fixed: allocation of 2 TiB from 9b 00 00 00 10 00 00 00 00 (F3). NOT decided deductively: polynomial time, stack depth (recursion on nesting), the pest parser, the validators, Display. For the entry points as a whole only a bounded crash search runs (labelled bounded, not counted): 616 two-rule schemas x small documents through parse / checked parse / format / JSON and CBOR validation in subprocesses. It found F12 (.plus overflow, fixed), F13 (tag-1 epoch unwrap, fixed) and two defects recorded as known findings instance by instance: F9 (cyclic alias reached through a control operator, unwrap or generic overflows the stack: 1425 instances) and F19 (uriparse panics on some strings: 14 instances).',
         'level_note': 'Trusted: as for C11 and C15. Only functions under contract are covered; C05 as stated quantifies over every entry point, most of which are outside the verifiers reach (see DESIGN.md 5).',
         'design_ref': 'DESIGN.md 4 U1/U3',
         'scope': 'panic/abort/termination obligations of the functions under contract in U1 and U3',
